@@ -460,7 +460,7 @@ def main():
     chk.build_props()
     cases = load_corpus()
     n_corpus = len(cases)
-    n_gen = 500 if chk.tier == "quick" else 4000
+    n_gen = 350 if chk.tier == "quick" else 4000
     for k in range(n_gen):
         cases.append(gen_case(chk.rng, k))
     impls = []
